@@ -61,6 +61,10 @@ type loopVar struct {
 	count int
 }
 
+// hiddenLoop is the count of a loop whose variable is not available to the
+// body as an operand or index (outerLoopIdiom).
+const hiddenLoop = 1 << 30
+
 type gctx struct {
 	t       *rapid.T
 	o       Opts
@@ -360,7 +364,9 @@ func (g *gctx) leaf(T Type, needDyn bool) (*Expr, bool) {
 	}
 	if k == len(cands) && len(g.loops) > 0 && T.N >= 4 {
 		lv := g.loops[g.intn(0, len(g.loops)-1, "loopvar")]
-		return &Expr{Op: ELoopVar, T: T, Name: lv.name}, false
+		if lv.count != hiddenLoop {
+			return &Expr{Op: ELoopVar, T: T, Name: lv.name}, false
+		}
 	}
 	if k == len(cands)+1 {
 		return g.dynSource(T), true
@@ -614,6 +620,16 @@ func (g *gctx) stmt() (*Stmt, bool) {
 		}
 		return g.aliasIdiom(), false
 	}
+	if (g.o.Structs || g.o.Arrays) && len(g.loops) == 0 && g.chance(5, "storelitidiom") {
+		if st := g.storeLiteralIdiom(); st != nil {
+			return st, false
+		}
+	}
+	if g.o.Arrays && g.o.Loops && len(g.loops) == 0 && g.ifDepth%100 == 0 && g.chance(6, "outerloopidiom") {
+		if st := g.outerLoopIdiom(); st != nil {
+			return st, false
+		}
+	}
 	k := g.intn(0, 99, "stmt")
 	if g.ifDepth%100 > 0 && g.chance(60, "branchprofile") {
 		// Inside a branch: mostly assignments to variables of the
@@ -687,6 +703,10 @@ func (g *gctx) stmt() (*Stmt, bool) {
 		}
 		nv := c[g.intn(0, len(c)-1, "arr")]
 		e, _ := g.expr(*nv.v.T.E, true)
+		if nv.v.T.E.IsInt() && !nv.v.Param && g.chance(20, "storelit") {
+			// a constant stored into an element of a local array
+			e = g.plainLiteral(*nv.v.T.E)
+		}
 		s := &Stmt{K: SSetIndex, Name: nv.name, E: e}
 		if len(g.loops) > 0 && g.loops[len(g.loops)-1].count <= nv.v.T.N && g.chance(60, "setloopidx") {
 			s.LoopIdx = g.loops[len(g.loops)-1].name
@@ -707,6 +727,11 @@ func (g *gctx) stmt() (*Stmt, bool) {
 		sd := g.prog.Struct(nv.v.T.S)
 		f := sd.Fields[g.intn(0, len(sd.Fields)-1, "field")]
 		e, _ := g.expr(f.T, true)
+		if f.T.IsInt() && !nv.v.Param && g.chance(25, "storelit") {
+			// a constant stored into a field of a local struct (the
+			// fields of struct parameters stay input-dependent)
+			e = g.plainLiteral(f.T)
+		}
 		return &Stmt{K: SSetField, Name: nv.name, Field: f.Name, E: e}, false
 	case k < 84 && g.ifDepth < 3:
 		return g.ifStmt()
@@ -737,6 +762,15 @@ func (g *gctx) stmt() (*Stmt, bool) {
 	default:
 		return g.stmt()
 	}
+}
+
+// plainLiteral draws a literal of type T that is not a package-level constant.
+func (g *gctx) plainLiteral(T Type) *Expr {
+	saved := g.prog.Consts
+	g.prog.Consts = nil
+	e := g.literal(T)
+	g.prog.Consts = saved
+	return e
 }
 
 // declAggregate declares a local array or struct variable: zero valued, or
@@ -812,6 +846,148 @@ func (g *gctx) declAggregate(name string, T Type) *Stmt {
 		if g.fn.Name == "main" && g.ifDepth%100 == 0 {
 			g.sink = append(g.sink, named{t, g.top()[t]})
 		}
+	}
+	return first
+}
+
+// storeLiteralIdiom emits
+//
+//	vS := <struct or array parameter>     (a local copy with input-dependent members)
+//	vS.Fi = <literal>                     (or vS[i] = <literal>)
+//	vB := (<dynamic> + vS.Fi) ^ vS.Fj     (the stored member and a neighbour)
+//
+// a constant (which has its own 32 or 64 bit type inside the compiler) stored
+// into a member that is narrower or wider than that, with the neighbouring
+// member read afterwards.
+func (g *gctx) storeLiteralIdiom() *Stmt {
+	var cands []named
+	for _, nv := range g.visible() {
+		if !(nv.v.RO || nv.v.Param) {
+			continue
+		}
+		switch nv.v.T.K {
+		case KStruct:
+			ok := len(g.prog.Struct(nv.v.T.S).Fields) > 0
+			for _, f := range g.prog.Struct(nv.v.T.S).Fields {
+				ok = ok && f.T.IsInt()
+			}
+			if ok {
+				cands = append(cands, nv)
+			}
+		case KArray:
+			if nv.v.T.E.IsInt() && nv.v.T.N >= 1 {
+				cands = append(cands, nv)
+			}
+		}
+	}
+	if len(cands) == 0 {
+		return nil
+	}
+	src := cands[g.intn(0, len(cands)-1, "slsrc")]
+	T := src.v.T
+	var ets []Type
+	var names []string
+	if T.K == KStruct {
+		for _, f := range g.prog.Struct(T.S).Fields {
+			ets = append(ets, f.T)
+			names = append(names, f.Name)
+		}
+	} else {
+		for i := 0; i < T.N; i++ {
+			ets = append(ets, *T.E)
+		}
+	}
+	i := g.intn(0, len(ets)-1, "slmember")
+	j := i
+	if len(ets) > 1 {
+		j = (i + 1) % len(ets)
+		if g.chance(30, "slprev") {
+			j = (i + len(ets) - 1) % len(ets)
+		}
+	}
+	vs := g.fresh()
+	g.top()[vs] = &varInfo{T: T}
+	first := &Stmt{K: SDefine, Name: vs, E: &Expr{Op: EVar, T: T, Name: src.name}}
+	lit := g.plainLiteral(ets[i])
+	member := func(k int) *Expr {
+		av := &Expr{Op: EVar, T: T, Name: vs}
+		if T.K == KArray {
+			return &Expr{Op: EIndex, T: ets[k], Idx: k, A: []*Expr{av}}
+		}
+		return &Expr{Op: EField, T: ets[k], Name: names[k], A: []*Expr{av}}
+	}
+	if T.K == KArray {
+		g.pending = append(g.pending, &Stmt{K: SSetIndex, Name: vs, Idx: i, E: lit})
+	} else {
+		g.pending = append(g.pending, &Stmt{K: SSetField, Name: vs, Field: names[i], E: lit})
+	}
+	vb := g.fresh()
+	sum := &Expr{Op: EBin, T: ets[i], Name: "+", A: []*Expr{g.dynSource(ets[i]), member(i)}}
+	e := &Expr{Op: EBin, T: ets[j], Name: "^", A: []*Expr{g.castTo(sum, ets[j]), member(j)}}
+	g.top()[vb] = &varInfo{T: ets[j], Dyn: true}
+	g.pending = append(g.pending, &Stmt{K: SDefine, Name: vb, E: e})
+	if g.fn.Name == "main" && g.ifDepth%100 == 0 {
+		g.sink = append(g.sink, named{vb, g.top()[vb]})
+	}
+	return first
+}
+
+// outerLoopIdiom emits
+//
+//	var kN int32 = c
+//	for kN = S; kN < S+C; kN++ { <body> }      (C = 0 two times in five)
+//	vM := arr[kN] + <dynamic value>
+//
+// a loop whose variable is declared outside and keeps its value after the
+// loop - also when the loop body never runs, in which case only the init
+// statement takes effect.
+func (g *gctx) outerLoopIdiom() *Stmt {
+	var arrs []named
+	for _, nv := range g.visible() {
+		if nv.v.T.K == KArray && nv.v.T.E.IsInt() && nv.v.T.N >= 2 {
+			arrs = append(arrs, nv)
+		}
+	}
+	if len(arrs) == 0 {
+		return nil
+	}
+	arr := arrs[g.intn(0, len(arrs)-1, "olarr")]
+	n := arr.v.T.N
+	count := 0
+	if !g.chance(40, "olzero") {
+		count = g.intn(1, 3, "olcount")
+	}
+	if count > n-1 {
+		count = n - 1
+	}
+	start := g.intn(0, n-1-count, "olstart")
+	k := g.fresh()
+	I32 := Int(32)
+	first := &Stmt{K: SVar, Name: k, T: &I32, E: &Expr{Op: ELit, T: I32, Val: fmt.Sprint(g.intn(0, n-1, "olinit"))}}
+	// The loop variable is not offered to the body as an operand (it has
+	// its own declared type); the body just runs Count times.
+	loop := &Stmt{K: SFor, Var: k, Count: count, Start: start, Outer: true}
+	g.loops = append(g.loops, loopVar{"_", hiddenLoop})
+	g.push()
+	nb := g.intn(1, 2, "olbody")
+	saved := g.pending
+	g.pending = nil
+	for i := 0; (i < nb && g.budget > 0) || len(g.pending) > 0; i++ {
+		st, _ := g.stmtNoReturn()
+		loop.Body = append(loop.Body, st)
+	}
+	g.pending = saved
+	g.pop()
+	g.loops = g.loops[:len(g.loops)-1]
+	g.pending = append(g.pending, loop)
+	T := *arr.v.T.E
+	v := g.fresh()
+	rd := &Expr{Op: EIndex, T: T, Name: k, A: []*Expr{{Op: EVar, T: arr.v.T, Name: arr.name}}}
+	e := &Expr{Op: EBin, T: T, Name: "+", A: []*Expr{g.dynSource(T), rd}}
+	g.top()[v] = &varInfo{T: T, Dyn: true}
+	g.pending = append(g.pending, &Stmt{K: SDefine, Name: v, E: e})
+	if g.fn.Name == "main" {
+		g.sink = append(g.sink, named{v, g.top()[v]})
 	}
 	return first
 }
